@@ -46,4 +46,9 @@ def conditions(tier, seed):
                         bound='programs %d mod %d of the corpus x every token x 16 single edits (delete, duplicate, swap, truncate, illegal characters, unclosed string / phrase / comment): '
                               'returns a tree or raises ParseException within 20 s; positions of what parses are consistent with the edited text' % (sh, ns),
                         case_split=['program', 'token', 'edit'], realised=['program text'], twin=(sh == picks[0])))
+    for sh in picks[:2] if q else picks:
+        out.append(Cond('history_s%d' % sh, 'c13_e2e.py', dict(shard=sh, nshards=ns), func='check_history', timeout=900 if q else 3000,
+                        bound='1..2 parses of a multi-line single-edit variant (programs %d mod %d x every token x 4 edits) followed by a valid multi-line program (rotating through the corpus): '
+                              'positions are those of the last text alone' % (sh, ns),
+                        case_split=['program', 'token', 'edit', 'repetitions'], realised=['program text'], twin=False))
     return out
